@@ -198,10 +198,10 @@ class Sandbox:
                 with self.trace.as_filename(filename, code):
                     exec(compiled_code, self.data)
         except Exception as user_exception:
-            if verif_hooks.ENABLED and isinstance(user_exception, TimeoutError):
+            if verif_hooks.ENABLED and issubclass(type(user_exception), TimeoutError):
                 verif_hooks.sync("M:handler")
             self._stop_mocking(context)
-            if verif_hooks.ENABLED and isinstance(user_exception, TimeoutError):
+            if verif_hooks.ENABLED and issubclass(type(user_exception), TimeoutError):
                 verif_hooks.sync("M:unpatched")
             self._capture_exception(user_exception, sys.exc_info(),
                                     code, filename)
